@@ -12,7 +12,6 @@ import (
 
 	"github.com/git-lfs/git-lfs/v3/commands"
 	"github.com/git-lfs/git-lfs/v3/config"
-	"github.com/git-lfs/git-lfs/v3/lfs"
 	"github.com/git-lfs/git-lfs/v3/verifhook"
 
 	"verif/sim"
@@ -474,6 +473,10 @@ func runC14(rc *RunCtx, faults bool) {
 				r.PktSize = 13
 			}
 			r.Payload = data
+			if pointerUnspecified(data) {
+				data = []byte("content, not a pointer\n")
+				r.Payload = data
+			}
 			if isWholePointer(data) || len(data) == 0 {
 				r.Expect = data
 			} else {
@@ -486,10 +489,10 @@ func runC14(rc *RunCtx, faults bool) {
 			r.CanDelay = t.Choose(2, "can-delay") == 1 && delayCap
 			if t.Bool(1, 6, "smudge-non-pointer") {
 				data, _, _ := GenPointerish(t)
-				if _, derr := lfs.DecodePointer(bytes.NewReader(data)); derr == nil || len(data) == 0 {
+				if sim.RefPointer(data) != sim.PtrNo || len(data) == 0 {
 					data = append([]byte("plain text, "), data...)
 				}
-				if _, derr := lfs.DecodePointer(bytes.NewReader(data)); derr == nil {
+				if len(data) >= 1024 && sim.RefPointer(bytes.TrimSpace(data[:1024])) != sim.PtrNo {
 					data = []byte("definitely not a pointer\n")
 				}
 				r.Payload = data
